@@ -13,6 +13,14 @@ func (e *Engine) panicSite(fr *frame, ins ssa.Instruction, reach, safe, what str
 	if safe == "true" || e.pure {
 		return
 	}
+	if e.rootC != nil && e.rootC.Options["no-panic-obligations"] {
+		// the contract says that panic freedom of this function is not analysed (listed in the evidence)
+		if !e.noPanicNoted {
+			e.noPanicNoted = true
+			e.trustedClauses = append(e.trustedClauses, e.rootC.Func+": run-time panic sites not analysed (option no-panic-obligations)")
+		}
+		return
+	}
 	pos := e.posOf(ins.Pos())
 	if pos == "" {
 		// use the position of the enclosing function
